@@ -194,7 +194,27 @@ def compare_sites(ctx, se):
             cargs = t.get("callee_args", [])
             sty = ctx.fb.ty(cargs[0]["ty"]) if cargs and "ty" in cargs[0] else None
             rty = ctx.fb.ty(cargs[1]["ty"]) if len(cargs) > 1 and "ty" in cargs[1] else None
-            out.append({"bb": bb, "op": "eq" if t["callee"].endswith("::eq") else "ne", "self_ty": sty, "rhs_ty": rty, "args": info["args"], "term": info["term"], "resolved": t.get("resolved")})
+            args = info["args"]
+            def bare_local(a):
+                """a place of the function left over as an operand (`&&_4`): walk, not into phis"""
+                a = strip(a)
+                if a[0] == "local":
+                    return True
+                if a[0] == "phi" or a[0] == "call":
+                    return False
+                return any(bare_local(y) for y in a[1:] if isinstance(y, tuple) and y and isinstance(y[0], str))
+
+            if any(bare_local(a) for a in args):
+                # operands handed on through references to locals (`&server_proof` given to a
+                # helper that compares `a == b` on its `&Proof` parameters): the values they hold
+                args = tuple(resolve_locals(se, bb, a) for a in args)
+                if sty is not None and sty.k == "ref":
+                    sty = sty.peel_refs()
+                    rty = rty.peel_refs() if rty is not None else None
+            elif sty is not None and sty.k == "ref" and (t.get("resolved") or "").startswith("std::cmp::impls::<impl std::cmp::PartialEq<&B> for &A>"):
+                sty = sty.peel_refs()
+                rty = rty.peel_refs() if rty is not None else None
+            out.append({"bb": bb, "op": "eq" if t["callee"].endswith("::eq") else "ne", "self_ty": sty, "rhs_ty": rty, "args": args, "term": info["term"], "resolved": t.get("resolved")})
     out.extend(fold_equalities(ctx, se))
     return out
 
@@ -377,6 +397,9 @@ IDENT_CALLS = (
     "core::array::<impl std::convert::AsRef<[T]> for [T; N]>::as_ref",
     "core::str::<impl str>::as_bytes",
     "std::clone::Clone::clone",
+    "std::array::<impl std::convert::AsMut<[T]> for [T; N]>::as_mut",
+    "core::array::<impl std::convert::AsMut<[T]> for [T; N]>::as_mut",
+    "core::array::<impl core::convert::AsMut<[T]> for [T; N]>::as_mut",
 )
 UNWRAP = ("std::result::Result::<T, E>::unwrap", "std::option::Option::<T>::unwrap", "std::result::Result::<T, E>::expect", "std::option::Option::<T>::expect")
 
@@ -778,6 +801,14 @@ def for_loops(ctx, se):
                 if is_call(c) and c[1].endswith("into_iter"):
                     init_call = c
                     init = c[2][0]
+                    if init[0] == "mutref" and len(c) > 3:
+                        # `for x in data` on a re-borrowed `&mut [T]` (a parameter handed on to a
+                        # helper that loops over it): the place that is borrowed
+                        ii = se.term_info.get(c[3][1], {})
+                        la = ii.get("locargs")
+                        if la and la[0][0] == "ref" and strip(la[0][1])[0] == "param":
+                            init = strip(la[0][1])
+                            init_call = (c[0], c[1], (init,) + tuple(c[2][1:])) + tuple(c[3:])
         elem = ("field", ("downcast", info["term"], 1), 0)
         out.append({"next_bb": bb, "switch_bb": nxt, "iter_loc": it_loc, "init": init, "init_call": init_call, "elem": elem, "body_bb": tg[1], "exit_bb": tg[0], "resolved": t.get("resolved")})
     return out
@@ -1127,6 +1158,8 @@ def resolve_locals(se, bb, t):
     def f(x):
         if x[0] == "local":
             return strip(se.read(st, x))
+        if x[0] == "phi":
+            return x                 # the ("local", n) inside a phi names the phi, it is not a place
         return None
 
     return map_term(strip(t), f)
@@ -1242,3 +1275,125 @@ def unwrap_try(se, t, depth=0):
         if len(oks) == 1:
             return unwrap_try(se, oks[0], depth + 1)
     return t
+
+
+# --------------------------------------------------------------------------- copies keep the value
+
+def clone_fidelity(ctx, rep, rule, adts, role="clone"):
+    """`Clone` of a value carrier: derived (field-wise by construction), or - when written by hand -
+    an aggregate of the same type whose field i is (a clone of) field i of the original, under the
+    engine that inlines the crate's own constructors and accessors.  A copy that permutes, resets
+    or recomputes a field hands a different value to whoever uses the copy."""
+    fb = ctx.fb
+    for adt in adts:
+        if adt not in fb.adts:
+            continue
+        name = "<%s as std::clone::Clone>::clone" % adt
+        b = fb.bodies.get(name)
+        if b is None:
+            cands = [p_ for p_ in fb.bodies if p_.startswith("<" + adt) and p_.endswith(" as std::clone::Clone>::clone")]
+            b = fb.bodies.get(cands[0]) if len(cands) == 1 else None
+            name = cands[0] if len(cands) == 1 else name
+        if b is None:
+            continue                      # the type is not Clone
+        if b.derived():
+            rep.ok(rule, adt, role, "derive(Clone): field-wise", b.loc())
+            continue
+        good = False
+        why = "hand-written Clone not understood"
+        nf = len(fb.adt_fields(adt) or [])
+        for eng in ("wrap", "deep"):
+            se = getattr(ctx, eng).run(name)
+            if se is None:
+                continue
+            r = strip(se.ret)
+            if r[0] == "agg" and r[1] == "adt" and r[2] == adt and len(r[4]) == nf:
+                bad = []
+                for i, x in enumerate(r[4]):
+                    y = strip(x)
+                    while is_call(y) and y[1] in IDENT_CALLS and len(y[2]) == 1:
+                        y = strip(y[2][0])
+                    if y != ("field", ("param", 1), i):
+                        bad.append((i, show(x, maxdepth=3)))
+                good = not bad
+                why = "hand-written Clone copies every field to its own place" if good else "hand-written Clone gives field %s the value %s" % (fb.adt_fields(adt)[bad[0][0]]["name"], bad[0][1])
+                if good:
+                    break
+        rep.check(good, rule, adt, role, why, "a copy of %s is not the same value: %s" % (adt, why), b.loc())
+
+
+# --------------------------------------------------------------------------- verdicts handed on
+
+def verdict_signs(ctx, se, cmp):
+    """How the outcome of the comparison `cmp` travels through the function when it is not tested
+    where it is used: stored as a bool or as a variant of a field-less enum, joined, tested again
+    later (`let check = ProofCheck::new(a, b); refresh(); check.is_accepted()`).
+    Returns sign(block) -> +1 (the block is reached only when the operands were equal) / -1 (only
+    when unequal) / None, computed switch by switch: the edges of the switch on the comparison
+    itself are +1 / -1; a later switch on a phi (or on the discriminant of a phi) whose every input
+    value comes from blocks of one sign gives its edges the sign of the value they select."""
+    body = se.body
+    g = compare_gate(ctx, se, cmp)
+    if g is None:
+        return lambda b: None
+    edge_sign = {g[1]: 1, g[2]: -1}
+
+    def sign(b):
+        out = set()
+        for e, sg in edge_sign.items():
+            if cfg.must_pass_edge(body, e, b):
+                out.add(sg)
+        return out.pop() if len(out) == 1 else None
+
+    def value_key(v):
+        v = strip(v)
+        if v[0] == "int":
+            return int(v[1])
+        if v[0] == "agg" and v[1] == "adt":
+            if v[2] in ("std::option::Option", "std::result::Result"):
+                return v[3]
+            a = ctx.fb.adts.get(v[2])
+            if a and a.get("kind") == "Enum" and isinstance(v[3], int) and v[3] < len(a["variants"]) and "discr" in a["variants"][v[3]]:
+                return int(a["variants"][v[3]]["discr"])
+        return None
+
+    done = {g[0]}
+    for _ in range(4):
+        changed = False
+        for sb, info in sorted(se.term_info.items()):
+            if info.get("k") != "switch" or sb in done:
+                continue
+            d = strip(info["discr"])
+            neg = False
+            while d[0] == "unop" and d[1] == "Not":
+                neg = not neg
+                d = strip(d[2])
+            x = strip(d[1]) if d[0] == "discr" else d
+            if not (x[0] == "phi" and x[1] == se.fn and (x[2], x[3]) in se.phi_inputs):
+                continue
+            vals = {}
+            ok = True
+            for pb, v in se.phi_inputs[(x[2], x[3])].items():
+                k = value_key(v)
+                sg = sign(pb)
+                if k is None or sg is None:
+                    ok = False
+                    break
+                if neg and d[0] != "discr":
+                    k = 1 - k
+                vals.setdefault(k, set()).add(sg)
+            if not ok or any(len(v_) != 1 for v_ in vals.values()):
+                continue
+            listed = set()
+            for val, tgt in info["targets"]:
+                listed.add(int(val))
+                if int(val) in vals:
+                    edge_sign[(sb, tgt)] = next(iter(vals[int(val)]))
+            rest = {next(iter(s_)) for k_, s_ in vals.items() if k_ not in listed}
+            if len(rest) == 1 and info["otherwise"] not in [t_ for _, t_ in info["targets"]]:
+                edge_sign[(sb, info["otherwise"])] = rest.pop()
+            done.add(sb)
+            changed = True
+        if not changed:
+            break
+    return sign
